@@ -1,6 +1,6 @@
 (* C05 — property theorems only. *)
 From Coq Require Import List Bool ZArith.
-From V Require Import C05.Model C05.Proofs.
+From V Require Import C05.Model C05.Proofs C05.Fast.
 Import ListNotations.
 Open Scope Z_scope.
 
@@ -97,6 +97,13 @@ Theorem no_unjustified_interaction : forall Ls m t j,
     In p (matches L (fst (fold_left (fun ms L => apply_link L ms) Ls1 (m, [])))) /\ In (t, i) (linters L) /\ j = inst p i.
 Proof. intros Ls m t j. unfold do_links. apply (do_links_origin_gen Ls (m, [])). Qed.
 Print Assumptions no_unjustified_interaction.
+
+(* the pruned enumeration used on shipped force fields finds exactly the same placements *)
+Theorem pruned_enumeration_same : forall L m p,
+  NoDup (map l_key (lnodes L)) -> NoDup (map m_key (nodes m)) ->
+  (In p (matches_fast L m) <-> In p (matches L m)).
+Proof. exact matches_fast_same. Qed.
+Print Assumptions pruned_enumeration_same.
 
 (* non-vacuity: an angle link  -BB BB +BB  on a 4-residue chain with a numbering gap fits at exactly one place *)
 Definition ex_node k r := {| m_key := k; m_resid := r; m_attrs := [(1, 7)]; m_mods := [] |}.
